@@ -220,7 +220,16 @@ func errorChainToMain(c *an.Ctx, r *runnerRoles, rule string) {
 	}
 	inner := watchMode
 	watchMode = func(caller, callee *ssa.Function) string {
-		if recorders[caller] && (callee == schedule || callee.Name() == "Run" && inPkgs("pkg/runner")(callee)) {
+		reachesRecorder := recorders[caller]
+		if !reachesRecorder && inPkgs("pkg/scheduler")(caller) {
+			// the error is handed to the recording helper as an argument
+			for g := range p.Reach([]*ssa.Function{caller}, func(e an.CallEdge) bool { return e.Kind == an.EdgeCall && inPkgs("pkg/scheduler")(e.Callee) && e.Callee != schedule }) {
+				if recorders[g] {
+					reachesRecorder = true
+				}
+			}
+		}
+		if reachesRecorder && (callee == schedule || callee == runStage || callee.Name() == "Run" && inPkgs("pkg/runner")(callee)) {
 			return "the stage's error is recorded as the run's error, which Schedule returns (decided by C02.2 / C02.4)"
 		}
 		return inner(caller, callee)
